@@ -50,7 +50,7 @@ class Slots:
     """cross-process memory/cpu budget: NSLOTS lock files of SLOT_GB each."""
 
     def __init__(self):
-        self.dir = os.path.join(VERIF, "build", "slots")
+        self.dir = os.environ.get("VP_SLOTS_DIR", "/tmp/vp_h3_slots")  # created on demand; shared by all concurrent checks
         os.makedirs(self.dir, exist_ok=True)
 
     def acquire(self, k):
